@@ -23,7 +23,7 @@ def run(ctx):
 
     # 1. table cases
     with open(os.path.join(d, "ectab.cfg"), "w") as f:
-        f.write("SPECIFICATION TSpec\nCONSTANTS\n MaxOps = 0\n AddSet = {1}\n NLcg = %d\n NField = %d\n" % ((400, 3000) if thorough else (40, 300)))
+        f.write("SPECIFICATION TSpec\nCONSTANTS\n MaxOps = 0\n AddSet = {1}\n NLcg = %d\n NField = %d\n BaseKind = \"G\"\n" % ((400, 3000) if thorough else (40, 300)))
     r = ctx.tlc("ECTab", "ectab.cfg", workers=ncpu, timeout=3000)
     rows = markers(r["out"], "CASE")
     if len(rows) != r["distinct"] // 2:
@@ -75,12 +75,20 @@ def run(ctx):
     # 2. walks: every single API call from both start points (BFS), and simulated walks of depth 5
     behs = []
     with open(os.path.join(d, "walk_bfs.cfg"), "w") as f:
-        f.write("SPECIFICATION Spec\nCONSTANTS\n MaxOps = 2\n AddSet = {1, 2, 5}\n NLcg = 0\nINVARIANT Consistent\nCONSTRAINT Emit\n")
+        f.write("SPECIFICATION Spec\nCONSTANTS\n MaxOps = 2\n AddSet = {1, 2, 5}\n NLcg = 0\n BaseKind = \"G\"\nINVARIANT Consistent\nCONSTRAINT Emit\n")
     r = ctx.tlc("ECWalk", "walk_bfs.cfg", workers=ncpu, timeout=3000)
     behs += markers(r["out"], "BEH")
+    # the same from the finite point with a zero coordinate, (0, sqrt b)
+    with open(os.path.join(d, "walk_bfs0.cfg"), "w") as f:
+        f.write("SPECIFICATION Spec\nCONSTANTS\n MaxOps = 2\n AddSet = {1, 2}\n NLcg = 0\n BaseKind = \"X0\"\nINVARIANT Consistent\nCONSTRAINT Emit\n")
+    r = ctx.tlc("ECWalk", "walk_bfs0.cfg", workers=ncpu, timeout=3000)
+    b0 = markers(r["out"], "BEH")
+    if not any(st["op"] == "add" and st["p"]["x"] == "0" and st["p"]["y"] != "0" for b in b0 for st in b):
+        raise Infra("no walk adds to the point (0, sqrt b)")
+    behs += b0
     nex = len(behs)
     with open(os.path.join(d, "walk_sim.cfg"), "w") as f:
-        f.write("SPECIFICATION Spec\nCONSTANTS\n MaxOps = 5\n AddSet = {1, 2, 5}\n NLcg = 0\nCONSTRAINT Emit\n")
+        f.write("SPECIFICATION Spec\nCONSTANTS\n MaxOps = 5\n AddSet = {1, 2, 5}\n NLcg = 0\n BaseKind = \"G\"\nCONSTRAINT Emit\n")
     r = ctx.tlc("ECWalk", "walk_sim.cfg", workers=8, simulate="num=%d" % (20 if thorough else 2), depth=6, count=False, timeout=3000)
     behs += markers(r["out"], "BEH")
     bf = os.path.join(ctx.work, "walks.ndjson")
